@@ -6,9 +6,8 @@ CONSTANTS
   MaxCuts = 2
   MaxTruncs = 2
   MaxRestarts = 2
-  AllowKF = TRUE
   EmitMode = "state"
 VIEW View0
-INVARIANTS TypeOK ReadYourWriteKF PositionsAgreeKF CutSeqAgreesKF RefMapBounded IterCompleteKF EmitState
+INVARIANTS TypeOK ReadYourWrite PositionsAgree CutSeqAgrees NoMismatch RefMapBounded IterComplete EmitState
 PROPERTIES TruncateOnlyOlder
 CHECK_DEADLOCK FALSE
